@@ -21,7 +21,7 @@ CLAIMED = {
  'C07': ('proof', 'Hidden state and frame: DFCC assigns obligations on the L0-L2 kernels (nothing but the event, out-parameters and ghost state is written); for every isotope and all int levels/modes, genbbsub initialisation of two arbitrary different parameter blocks ends in the same state (no field left over from an earlier configuration is read); AST frame scan of every rendered function (assignment targets, write-once statics).', '3 C07',
          'pointer/reference into the particle vector across an emission is claimed under C08; other instances, reset/re-init, shoot() are porcelain (not covered); the AST scan is a static fact, not a CBMC obligation'),
  'C08': ('proof', 'CBMC bounds/pointer/overflow/conversion/division checks on every rendered L3 routine body for all deviates, with std::vector modelled as "any push_back may reallocate" so that a pointer kept across an emission is a failed obligation; decay0_bb under contract: every spthe1/spthe2 index inside the 4300-entry tables and every double->int conversion defined, for every mode, window and deviate sequence (loop invariants, no unwinding).', '3 C08',
-         'uninitialised reads not covered; decay0_bb: deviate*x abstracted to [0,x], nonlinear products uninterpreted (sound over-approximations); genbbsub body and the quadrature routines (dgmlt1/2, divdif) not under a safety contract'),
+         'uninitialised reads not covered; decay0_bb: deviate*x abstracted to [0,x], nonlinear products uninterpreted (sound over-approximations); dgmlt1/dgmlt2 under contracts/safety.contract (NI <= 4096, callback frame assumed); decay0_divdif decided only for its single call site NN=48, MM=2 by unwinding 14 with unwinding assertions (bounded stand-in, complete for these sizes, not counted as an unbounded proof); genbbsub body not under a safety contract'),
 }
 NA = {
  '_C01': 'not built yet: relational proof against the Fortran reference (DESIGN 2.5) is the next build step',
